@@ -52,5 +52,6 @@ spec = [
   "max_depth": 400, "max_steps": 20000000, "solver_timeout_ms": 10000, "int_mode": True, "carves": CARVES, "overrides": OVR,
   "note": "Same entry as C07.exit on one program per known finding; the probe runs confirm that each finding still reproduces inside its region."},
 ]
-json.dump(spec, open('/verif/harness/obligations.d/C07.json', 'w'), indent=0)
+keep = [o for o in json.load(open('/verif/harness/obligations.d/C07.json')) if o['id'] not in ('C07.exit', 'C07.findings')]
+json.dump(spec[:1] + keep + spec[1:], open('/verif/harness/obligations.d/C07.json', 'w'), indent=0)
 print("quick", len(quick), "thorough", len(thorough))
